@@ -545,7 +545,7 @@ package binary
 // (isolation between concurrent borrowers is property C18, not claimed).
 
 //@ contract NewStreamWriter
-//@   trusted
+//@   props C02
 //@   modifies nothing
 //@   ensures result != nil && fresh(result) && result.writer == w
 
@@ -554,10 +554,15 @@ package binary
 //@   modifies sw.writer
 //@   ensures result == nil
 
+// A pooled reader carries whatever its previous user left: every field the
+// reader relies on is re-established here (C03: a stale seek-based discard on a
+// non-seekable reader would panic in Skip).
 //@ contract NewStreamReader
-//@   trusted
+//@   props C02 C03
 //@   modifies nothing
 //@   ensures result != nil && fresh(result) && result.reader == r
+//@   ensures(discardstream) !implements(r, io.Seeker) ==> result.discard == result._discardStream
+//@   ensures(discardseek) implements(r, io.Seeker) ==> result.discard == result._discardSeek && result._seeker != nil && ref(result._seeker) == ref(r)
 
 //@ contract (*StreamReader).Close
 //@   trusted
